@@ -4,6 +4,7 @@ import (
 	"context"
 	"errors"
 	"net"
+	"os"
 	"time"
 )
 
@@ -15,7 +16,7 @@ import (
 // paths are not replayed natively for this harness).
 
 var c41InProgress, c41MaxInProgress int
-var c41Behaviour map[string]int // per address: 0 connect, 1 refuse, 2 hang until the deadline
+var c41Behaviour map[string]int // per address: 0 connect, 1 refuse, 2 hang until the deadline, 3/4 hang and net reports the expiry before the context's timer has fired
 
 //verif:stub (*net.Dialer).DialContext
 func vstubDialContext(d *net.Dialer, ctx context.Context, network, addr string) (net.Conn, error) {
@@ -31,10 +32,40 @@ func vstubDialContext(d *net.Dialer, ctx context.Context, network, addr string) 
 	case 2:
 		<-ctx.Done()
 		return nil, ctx.Err()
+	case 3, 4:
+		// net.(*netFD).connect arms the socket's write deadline from the
+		// context's deadline and returns the poller's error when WaitWrite
+		// fails while ctx.Done() is not closed yet: the poller's deadline and
+		// the context's own timer are two independent runtime timers set to
+		// the same instant, so the dial can come back with "i/o timeout"
+		// (os.ErrDeadlineExceeded inside a *net.OpError) a moment before
+		// ctx.Err() turns non-nil (behaviour 3). net.(*sysDialer).dialSerial
+		// compares the deadline with the clock itself and returns net's
+		// unexported timeout error, which matches context.DeadlineExceeded
+		// (behaviour 4). The moment is 1 µs of virtual time here.
+		if dl, ok := ctx.Deadline(); ok {
+			if w := time.Until(dl) - time.Microsecond; w > 0 {
+				time.Sleep(w)
+			}
+			if c41Behaviour[addr] == 4 {
+				return nil, &net.OpError{Op: "dial", Net: network, Err: c41NetTimeout{}}
+			}
+			return nil, &net.OpError{Op: "dial", Net: network, Err: os.ErrDeadlineExceeded}
+		}
+		<-ctx.Done()
+		return nil, ctx.Err()
 	}
 	time.Sleep(10 * time.Millisecond)
 	return &vcConn{addr: addr}, nil
 }
+
+// c41NetTimeout has the shape of net's unexported timeoutError.
+type c41NetTimeout struct{}
+
+func (c41NetTimeout) Error() string     { return "i/o timeout" }
+func (c41NetTimeout) Timeout() bool     { return true }
+func (c41NetTimeout) Temporary() bool   { return true }
+func (c41NetTimeout) Is(err error) bool { return err == context.DeadlineExceeded }
 
 func vhC41Dialer() {
 	c41InProgress, c41MaxInProgress = 0, 0
@@ -95,10 +126,10 @@ func vhC41Dialer() {
 }
 
 type c41Resolver struct {
-	addrs []net.IPAddr
-	calls int
-	takes time.Duration // the lookup takes this long
-	failFrom int        // lookups from this call number on fail (0: never)
+	addrs    []net.IPAddr
+	calls    int
+	takes    time.Duration // the lookup takes this long
+	failFrom int           // lookups from this call number on fail (0: never)
 }
 
 var errC41Lookup = errors.New("c41: lookup failed")
@@ -164,7 +195,6 @@ func vhC41Rotation() {
 	vAssert("resolved-once", r.calls == 1)
 }
 
-
 // vhC41ConcurrentRotation: two dials of the same multi-address host at the
 // same time, exactly one address accepting and the others refusing: each dial
 // walks the addresses in rotation, so both must connect.
@@ -195,4 +225,31 @@ func vhC41ConcurrentRotation() {
 	<-done
 	<-done
 	vAssert("every-dial-reaches-the-one-live-address", errs[0] == nil && errs[1] == nil)
+}
+
+// vhC41SocketDeadlineFirst: the endpoint hangs and the operating system's
+// dialer reports the expiry the way net.(*netFD).connect can: as the poller's
+// "i/o timeout" returned a moment before the context's own timer has fired
+// (behaviour 3 of the stub). For the caller this is the requested timeout
+// running out, so the outcome has to be ErrDialTimeout with the upstream
+// address, like for an expiry seen through ctx.Done().
+func vhC41SocketDeadlineFirst() {
+	c41InProgress, c41MaxInProgress = 0, 0
+	c41Behaviour = map[string]int{"10.0.0.1:80": 2 + vChoose("expirySeenThrough", 3)}
+	d := &TCPDialer{Concurrency: vChoose("concurrency", 2), DisableDNSResolution: true}
+	T := [...]time.Duration{time.Millisecond, time.Second}[vChoose("timeout", 2)]
+	start := time.Now()
+	var c net.Conn
+	var err error
+	if vChoose("dualStack", 2) == 1 {
+		c, err = d.DialDualStackTimeout("10.0.0.1:80", T)
+	} else {
+		c, err = d.DialTimeout("10.0.0.1:80", T)
+	}
+	elapsed := time.Since(start)
+	var up *ErrDialWithUpstream
+	vAssert("expired-dial-is-ErrDialTimeout-with-the-upstream-address",
+		c == nil && errors.Is(err, ErrDialTimeout) && errors.As(err, &up) && up.Upstream == "10.0.0.1:80")
+	vAssert("returns-by-the-timeout", elapsed <= T+50*time.Millisecond)
+	vAssert("slots-returned", len(d.concurrencyCh) == 0)
 }
